@@ -84,6 +84,11 @@ PROPS["C03"] = dict(level="exploration", race=False, tiers={
     "thorough": [dict(variant="", runs=20000, budget_s=3300)],
 })
 
+PROPS["C02"] = dict(level="exploration", race=False, tiers={
+    "quick": [dict(variant="", runs=2000, budget_s=100)],
+    "thorough": [dict(variant="", runs=60000, budget_s=3300)],
+})
+
 RULES = {}
 ASSUME = {}
 
